@@ -16,6 +16,8 @@ Wire5 == {0, 1, 2, 3, 4, 5, 6, 254, 255, 256, 257, 258, 259, 260, 261, 511, 513}
 WriteRows  == \A s \in Steps : CSVWrite("%1$s", <<ToJson(s)>>, "rows.ndjson")
 WriteWorld == CSVWrite("%1$s", <<ToJson([n |-> N, owner |-> Owner, outsider |-> Outsider,
                                          wires |-> WireIndexes])>>, "world.ndjson")
+ASSUME WriteRows
+ASSUME WriteWorld
 EmitCase ==
     Done => CSVWrite("%1$s", <<ToJson([rule |-> step.rule, in |-> case, expected |-> outcome])>>,
                      "cases.ndjson")
